@@ -37,7 +37,17 @@ for d in dirs:
         json.dump(meta, open(f"{d}/meta.json", "w"), indent=1)
     rows.append((name, "caught" if meta["property"] in caught else "MISSED by its own property's check", caught, broken))
     print(name, caught, broken, flush=True)
-with open(f"{V}/seeded/RESULTS.md" if not only else f"{V}/seeded/RESULTS-partial.md", "w") as f:
+if only:
+    # partial run: merge into the existing table
+    old = {}
+    for l in open(f"{V}/seeded/RESULTS.md"):
+        if l.startswith("| C"):
+            c = [x.strip() for x in l.strip().strip("|").split("|")]
+            old[c[0]] = (c[0], c[1], [x.strip() for x in c[2].split(",") if x.strip() != "-"], [x.strip() for x in c[3].split(",") if x.strip() != "-"])
+    for r in rows:
+        old[r[0]] = r
+    rows = [old[k] for k in sorted(old, key=lambda n: (n.endswith(".diff"), n))]
+with open(f"{V}/seeded/RESULTS.md", "w") as f:
     f.write("# Seeded changes vs quick checks\n\nEach change (seeded/: from independent sub-agents; mutants/: hand-written, kept only if the 236 tests still pass) was applied to the repository (`git -C /repo apply`), all 20 quick checks were run, and /repo was reverted.\n\n| seeded change | own property | quick checks reporting a VIOLATION | inconclusive |\n|---|---|---|---|\n")
     for name, st, caught, broken in rows:
         f.write(f"| {name} | {st} | {', '.join(caught) or '-'} | {', '.join(broken) or '-'} |\n")
